@@ -140,6 +140,38 @@ def build():
     return reg, cs
 
 
+def build_standardize():
+    """patsy-compatible `standardize(x, center, rescale, ddof, _state)` is `scale` with ddof=0 by default and the SAME state object: the statistics are
+    recorded in (and replayed from) the state the stateful-transform machinery hands to `standardize` (formulaic/transforms/patsy_compat.py)."""
+    from vf.pyvc.types import TObj
+
+    reg = Registry()
+    STATE, ANY = TObj("StateRef"), TObj("AnyValue")
+    f = lambda name, *tys: z3.Function(name, *[t.sort() for t in tys])
+    SCALE = f("scale_call", ANY, TBool_(), TBool_(), TReal_(), STATE, ANY)
+    scale_k = Contract("scale", params={"data": ANY, "center": "Bool", "scale": "Bool", "ddof": "Real", "_state": STATE}, returns=ANY, trusted=True,
+                       spec_env={"scale_call": lambda e, a, k, n, s: V(ANY, SCALE(*[x.t for x in a]))},
+                       ensures=["result == scale_call(data, center, scale, ddof, _state)"],
+                       notes="formulaic.transforms.scale.scale (proved in this module for the fit and replay variants); here a function of its arguments INCLUDING the state object")
+    c = Contract(
+        "formulaic/transforms/patsy_compat.py::standardize", params={"x": ANY, "center": "Bool", "rescale": "Bool", "ddof": "Real", "_state": STATE}, returns=ANY,
+        calls={"scale": scale_k}, spec_env={"scale_call": lambda e, a, k, n, s: V(ANY, SCALE(*[x.t for x in a]))},
+        ensures=["result == scale_call(x, center, rescale, ddof, _state)"], modifies=[], props=["C13", "C04"])
+    return reg, [reg.add(c)]
+
+
+def TBool_():
+    from vf.pyvc.types import TBool
+
+    return TBool
+
+
+def TReal_():
+    from vf.pyvc.types import TReal
+
+    return TReal
+
+
 def _np(x):
     import numpy
 
@@ -179,3 +211,5 @@ def run_proofs(ctx):
     ctx.assume("A-float: floating point treated as real arithmetic", "A-lib(numpy): aggregate/broadcast axioms listed in vf/proofs/c13.py (column-vector semantics)",
                "@stateful_transform dropped by extraction (state threading exercised by the bounded drivers)")
     run_contracts(ctx, cs, reg, workloads=workloads(), concrete_env=CONCRETE_ENV)
+    reg2, cs2 = build_standardize()
+    run_contracts(ctx, cs2, reg2)
